@@ -53,6 +53,66 @@ def flatten(case, events):
     return out
 
 
+# ---- block/inline context adaptation (Model/SubstCtx.lean): abstract nodes <-> real n.* nodes; the id is the span line
+INLINE_MAKERS = [
+    lambda i: n.Text((i,), f"t{i}"),
+    lambda i: n.Emphasis((i,), [n.Text((i,), f"e{i}")]),
+    lambda i: n.Literal((i,), [n.Text((i,), f"l{i}")]),
+    lambda i: n.Strong((i,), [n.Text((i,), f"s{i}")]),
+    lambda i: n.Reference((i,), [n.Text((i,), f"r{i}")], "https://example.invalid", None),
+]
+BLOCK_MAKERS = [
+    lambda i: n.Code((i,), None, None, False, [], f"c{i}", False, None, None),
+    lambda i: n.ListNode((i,), [n.ListNodeItem((i,), [n.Paragraph((i,), [n.Text((i,), f"li{i}")])])], n.ListEnumType.unordered, None),
+    lambda i: n.Directive((i,), [], "", "note", [], {}),
+    lambda i: n.Comment((i,), [n.Text((i,), f"k{i}")]),
+]
+REF_LINE = 900
+
+
+def ctx_real(j):
+    k, i = j["k"], j["id"]
+    if k == "inl":
+        return INLINE_MAKERS[i % len(INLINE_MAKERS)](i)
+    if k == "blk":
+        return BLOCK_MAKERS[i % len(BLOCK_MAKERS)](i)
+    return n.Paragraph((i,), [ctx_real(c) for c in j["c"]])
+
+
+def ctx_abs(node, ref_line=None):
+    """real node -> abstract node (the created paragraphs of search_block carry the span of the reference)"""
+    i = node.span[0]
+    if isinstance(node, n.Paragraph):
+        if ref_line is not None and i == ref_line:
+            return {"k": "wrap", "c": [ctx_abs(c) for c in node.children]}
+        return {"k": "para", "id": i, "c": [ctx_abs(c) for c in node.children]}
+    if isinstance(node, n.InlineNode):
+        return {"k": "inl", "id": i}
+    return {"k": "blk", "id": i}
+
+
+def gen_ctx_nodes(rng):
+    counter = [0]
+
+    def fresh():
+        counter[0] += 1
+        return counter[0]
+
+    def para():
+        kids = [{"k": rng.choice(["inl", "inl", "inl", "blk"] if rng.random() < 0.25 else ["inl"]), "id": fresh()} for _ in range(rng.randint(0, 3))]
+        return {"k": "para", "id": fresh(), "c": kids}
+    shape = rng.random()
+    if shape < 0.15:
+        return [{"k": "inl", "id": fresh()} for _ in range(rng.randint(0, 3))]
+    if shape < 0.40:
+        return [para()]
+    out = []
+    for _ in range(rng.randint(1, 6)):
+        r = rng.random()
+        out.append({"k": "inl", "id": fresh()} if r < 0.5 else (para() if r < 0.75 else {"k": "blk", "id": fresh()}))
+    return out
+
+
 def text_of(node):
     if isinstance(node, n.Text):
         return node.value
@@ -72,7 +132,7 @@ class C07(core.PropertyCheck):
             "the Lean model; constants: generated sources with placeholders/near-misses against ProjectConfig.substitute/render_constants. "
             "non-trivial = at least one name defined at >=2 levels or a nested reference")
     assumptions = [
-        "block/inline context adaptation (extract_inline / paragraph wrapping) is outside the Lean model; checked by the oracle on the implementation",
+        "block/inline context adaptation (extract_inline / search_inline / search_block) is modelled on abstract nodes (inline / paragraph / other block; Model/SubstCtx.lean) and compared with the real handler on project-wide definitions",
         "Python's \\w is a parameter of the constants model (ASCII table + the characters the generator uses, classified by the running re module)",
         "constant values and names are single-line in the claim constants_line_preserving (multi-line values shift lines; reported in evidence, not a violation)",
     ]
@@ -117,9 +177,17 @@ class C07(core.PropertyCheck):
         return evs
 
     def generate(self, rng, budget, tier):
+        if tier != "search":
+            for nodes in ([], [{"k": "para", "id": 1, "c": []}], [{"k": "inl", "id": 1}], [{"k": "blk", "id": 1}],
+                          [{"k": "para", "id": 2, "c": [{"k": "inl", "id": 1}]}],
+                          [{"k": "para", "id": 2, "c": [{"k": "inl", "id": 1}]}, {"k": "para", "id": 4, "c": [{"k": "inl", "id": 3}]}]):
+                yield {"kind": "ctx", "nodes": nodes}
         for i in range(budget):
             if i % 5 == 4:
                 yield self.gen_const_case(rng)
+                continue
+            if i % 10 == 7:
+                yield {"kind": "ctx", "nodes": gen_ctx_nodes(rng)}
                 continue
             if i % 5 == 3:
                 # project-wide substitutions only (static environment), cycles of length 1-3 frequent
@@ -187,6 +255,8 @@ class C07(core.PropertyCheck):
                 return {"exc": type(e).__name__, "msg": str(e)[:200]}
             return {"exc": None, "out": out, "diags": [[getattr(d, "name", d.message), d.start[0]] for d in diags],
                     "consts": [[k, str(v)] for k, v in cfg.constants.items()], "messages": [d.message for d in diags]}
+        if case["kind"] == "ctx":
+            return self.run_ctx(case)
         used = set()
         pages = []
         for f, evs in case["pages"].items():
@@ -222,8 +292,37 @@ class C07(core.PropertyCheck):
                 diags.setdefault(str(fid), []).append([kind, d.start[0]])
         return {"exc": None, "uses": out, "diags": {k: sorted(v) for k, v in diags.items()}}
 
+    def run_ctx(self, case):
+        """the definition as a project-wide substitution; one inline and one block reference to it on a page, through the real
+        SubstitutionHandler; plus the real extract_inline called directly"""
+        from snooty.postprocess import extract_inline
+        try:
+            r = extract_inline([ctx_real(j) for j in case["nodes"]])
+            extract = {"none": True} if r is None else {"nodes": [ctx_abs(x) for x in r]}
+        except Exception as e:
+            extract = {"exc": type(e).__name__}
+        cfg = pp.config()
+        cfg.substitution_nodes = {"d": [ctx_real(j) for j in case["nodes"]]}
+        inline_ref = n.SubstitutionReference((REF_LINE,), [], "d")
+        block_ref = n.BlockSubstitutionReference((REF_LINE + 1,), [], "d")
+        page = pp.page("index.txt", [n.Paragraph((REF_LINE,), [n.Text((REF_LINE,), "U"), inline_ref]), block_ref])
+        try:
+            res = pp.run([page], cfg)
+        except Exception as e:
+            return {"exc": type(e).__name__, "msg": str(e)[:200]}
+        ast = res.pages[n.FileId("index.txt")].ast
+        irefs = [x for x in pp.walk(ast) if isinstance(x, n.SubstitutionReference) and x.span[0] == REF_LINE]
+        brefs = [x for x in pp.walk(ast) if isinstance(x, n.BlockSubstitutionReference) and x.span[0] == REF_LINE + 1]
+        invalid = [d.start[0] for ds in res.diagnostics.values() for d in ds if type(d).__name__ == "InvalidContextError"]
+        inline = {"invalid": True} if REF_LINE in invalid else {"nodes": [ctx_abs(x) for x in irefs[0].children]}
+        return {"exc": None, "extract": extract, "inline": inline, "inline_children": [ctx_abs(x) for x in irefs[0].children],
+                "block": [ctx_abs(x, REF_LINE + 1) for x in brefs[0].children], "invalid_lines": invalid,
+                "diags": {}, "uses": {}}
+
     # ------------------------------------------------------------------ model
     def model_request(self, case):
+        if case["kind"] == "ctx":
+            return {"op": "c07.ctx", "nodes": case["nodes"]}
         if case["kind"] == "const":
             chars = sorted(set(case["src"] + "".join(k + v for k, v in case["consts"])))
             wc = "".join(c for c in chars if re.match(r"\w", c) and not (c.isascii() and (c.isalnum() or c == "_")))
@@ -272,6 +371,11 @@ class C07(core.PropertyCheck):
     def compare(self, case, model, impl):
         if impl["exc"]:
             return f"implementation raised {impl['exc']}"
+        if case["kind"] == "ctx":
+            for k, what in (("extract", "extract_inline"), ("inline", "search_inline"), ("block", "search_block")):
+                if model[k] != impl[k]:
+                    return f"{what} differs: model {json.dumps(model[k])} impl {json.dumps(impl[k])}"
+            return None
         if case["kind"] == "const":
             if model["out"] != impl["out"]:
                 return f"substituted text differs: model {model['out']!r} impl {impl['out']!r}"
@@ -316,6 +420,31 @@ class C07(core.PropertyCheck):
     def oracle(self, case, impl):
         if impl["exc"]:
             return f"substitution pass raised {impl['exc']}"
+        if case["kind"] == "ctx":
+            # the property itself, judged on the implementation alone: block content in an inline context is reported and not
+            # inserted; in a block context nothing of the definition is lost or reordered and no inline node stays at block level
+            def flat(js):
+                for j in js:
+                    yield (j["k"], j.get("id"))
+                    yield from flat(j.get("c", []))
+            kids = impl["inline_children"]
+            if any(k != "inl" for k, _ in flat(kids)):
+                return f"block content inserted under an inline substitution reference: {json.dumps(kids)}"
+            has_block = any(k != "inl" for k, _ in flat(case["nodes"]) if True) and not (
+                len(case["nodes"]) == 1 and case["nodes"][0]["k"] == "para" and all(c["k"] == "inl" for c in case["nodes"][0]["c"]))
+            if has_block and "invalid" not in impl["inline"]:
+                return "block content substituted into inline context without an InvalidContextError diagnostic"
+            spliced = []
+            for j in impl["block"]:
+                if j["k"] == "wrap":
+                    spliced.extend(j["c"])
+                else:
+                    if j["k"] == "inl":
+                        return f"inline node left at block level under a block substitution reference: {json.dumps(impl['block'])}"
+                    spliced.append(j)
+            if spliced != case["nodes"]:
+                return f"block substitution lost or reordered content: definition {json.dumps(case['nodes'])} got {json.dumps(impl['block'])}"
+            return None
         if case["kind"] == "const":
             src, consts = case["src"], dict(impl["consts"])
             if not all("\n" not in v for v in consts.values()):
@@ -446,6 +575,9 @@ class C07(core.PropertyCheck):
         tags = [case["kind"]]
         if impl.get("exc"):
             return tags + ["exc:" + impl["exc"]]
+        if case["kind"] == "ctx":
+            return tags + ["ctx-invalid" if "invalid" in impl["inline"] else "ctx-inline-ok",
+                           "ctx-wrapped" if any(j["k"] == "wrap" for j in impl["block"]) else "ctx-no-wrap"]
         if case["kind"] in ("page", "static"):
             if self.is_cyclic(case):
                 tags.append("cyclic")
